@@ -1,7 +1,7 @@
 """C05 — the most specific applicable member instruction wins; others never interfere."""
 import re
 
-from ..pe import Clos, Evaluator, SymObj, Tag, explore, vkey
+from ..pe import Clos, Evaluator, SymObj, Tag, explore, vkey, ListV, vkey
 from ..src import Inconclusive, calls, method_calls, render, walk, walk_with_parents
 from ..tables import ATTR, EXPAND, IMPL_FILES, VALIDATE, direction, kinds
 
@@ -172,16 +172,155 @@ def classify(leaves):
     return out
 
 
+# ---- small-scope semantics of a lookup: the accessor body is evaluated (std iterator semantics, see pe.IterV) on every vector of at
+# most 3 abstract instructions drawn from {default, dedicated to the queried type T, dedicated to another type U}; everything else an
+# element carries is ONE shared symbolic record, so the residual filter (applicable_to[kind], fallible, child_fields ..) takes the same
+# value for all elements and is enumerated by decision forking.  Contract: with R := "lookup([T]) is Some" under the same residual
+# assignment, lookup([N]) is Some <=> R, lookup([U]) is None, and lookup(v) = first T of v, else first N of v, else None (None when !R).
+def _elem(cls, i):
+    from ..pe import StructV
+    ct = Tag("None", [], "Option") if cls == "N" else Tag("Some", [cls], "Option")
+    rest = SymObj("instr", ("named", "?"))
+    inner = StructV("Attr", {"container_ty": ct, "_id": i, "_cls": cls}, rest=SymObj("instr.attr", ("named", "?")))
+    return StructV("Instr", {"container_ty": ct, "attr": inner, "_id": i, "_cls": cls}, rest=rest)
+
+
+def _vec_field(fi):
+    """The instruction vector(s) the accessor reads off self: self.<field> paths."""
+    out = []
+    for n in walk(fi.body):
+        if n["k"] == "Field" and n["base"]["k"] == "Path" and n["base"]["segs"] == ["self"]:
+            out.append(n["member"])
+    return sorted(set(out))
+
+
+def lookup_semantics(repo, fi, impl):
+    """Returns (verdict, detail): True / False(witness) / None(reason)."""
+    import itertools
+    from ..pe import StructV, Unsupported, PanicReached, IterV
+    vecs = [f["name"] for f in repo.struct(ATTR, impl)["fields"]["fields"] if f["ty"].replace(" ", "").startswith("Vec<")]
+    if not vecs:
+        return None, "no instruction vectors in " + impl
+    helpers = {f.name for f in repo.fns(ATTR) if f.impl == impl}
+
+    def run_on(vector):
+        def mk():
+            ev = Evaluator(repo, IMPL_FILES)
+            ev.concrete_iters = True
+            return ev
+
+        def run(ev):
+            me = StructV(impl, {v: ListV(list(vector)) for v in vecs}, rest=SymObj("self", ("named", impl)))
+            args = ev.sym_params(fi)
+            args["self"] = me
+            if "container_ty" in args:
+                args["container_ty"] = "T"
+            return ev.run_fn(fi, args)
+        return explore(mk, run)
+
+    def outcome(lf):
+        if lf.panic or lf.unsupported:
+            raise Unsupported(str(lf.panic or lf.unsupported))
+        v = lf.value
+        if isinstance(v, bool):
+            return ("bool", v)
+        if isinstance(v, Tag) and v.name == "None":
+            return None
+        if isinstance(v, Tag) and v.name == "Some" and isinstance(v.args[0], StructV) and "_id" in v.args[0].fields:
+            return v.args[0].fields["_id"]
+        raise Unsupported("lookup result not understood: " + vkey(v)[:80])
+
+    def resid_key(lf):
+        return tuple(sorted((a, str(v)) for a, v in lf.decisions.items()))
+    try:
+        base = {}
+        for cls in "TNU":
+            for lf in run_on([_elem(cls, 0)]):
+                base.setdefault(cls, {})[resid_key(lf)] = outcome(lf)
+        is_pred = any(isinstance(o, tuple) for d in base.values() for o in d.values())
+
+        def R(lf_key, cls="T"):
+            # residual assignment keys may be decided lazily: match on the sub-assignment
+            for k, o in base[cls].items():
+                if set(k) <= set(lf_key) or set(lf_key) <= set(k):
+                    return o
+            return "?"
+        truthy = (lambda o: o == ("bool", True)) if is_pred else (lambda o: o is not None)
+        if not any(truthy(o) for o in base["T"].values()):
+            return False, {"vector": ["T"], "why": "a lone instruction dedicated to the queried type is never found"}
+        n = 0
+        for ln in range(0, 4):
+            for classes in itertools.product("TNU", repeat=ln):
+                vec = [_elem(c, i) for i, c in enumerate(classes)]
+                for lf in run_on(vec):
+                    n += 1
+                    got = outcome(lf)
+                    key = resid_key(lf)
+                    rT = R(key, "T")
+                    rN = R(key, "N")
+                    if rT == "?" or rN == "?":
+                        return None, "residual assignment of a vector not comparable with the single-element runs"
+                    if truthy(rT) != truthy(rN):
+                        return False, {"vector": ["T"], "vs": ["N"], "residual": dict(key), "why": "the dedicated and the default pass apply different residual filters"}
+                    if is_pred:
+                        want = ("bool", truthy(rT) and any(c in "TN" for c in classes))
+                    elif not truthy(rT):
+                        want = None
+                    else:
+                        want = next((i for i, c in enumerate(classes) if c == "T"), None)
+                        if want is None:
+                            want = next((i for i, c in enumerate(classes) if c == "N"), None)
+                    if got != want:
+                        name = lambda o: None if o is None else (o[1] if isinstance(o, tuple) else f"#{o}:{classes[o]}")
+                        return False, {"vector": list(classes), "residual": dict(key), "expected": name(want), "found": name(got),
+                                       "legend": "N = default instruction, T = dedicated to the queried type, U = dedicated to another type (declaration order)"}
+        return True, {"vectors_evaluated": n}
+    except (Unsupported, PanicReached, Inconclusive, KeyError, IndexError, AttributeError) as e:
+        return None, f"accessor not evaluable on abstract vectors: {e!r}"[:200]
+
+
 def r3(chk):
     repo = chk.repo
     chk.rule("R3", "accessor = find(R ∧ dedicated-to-this-type).or_else(find(R ∧ default)) over the same vector with the same residual filter R", floor=11)
     for impl, name in ACCESSORS:
         fi = repo.fn(ATTR, name, impl=impl)
         key = f"{impl}::{name}"
+        sv, sd = lookup_semantics(repo, fi, impl)
+        if sv is True:
+            chk.ok("R3", key, ATTR, fi.line, detail={"decided_by": "small-scope semantics (all vectors of <= 3 abstract instructions, shared residual)", **sd})
+            chk.unit("lookup_vectors_evaluated", sd.get("vectors_evaluated", 0))
+            continue
+        if sv is False:
+            chk.bad("R3", key, ATTR, fi.line, "lookup does not return the first instruction dedicated to the queried type, else the first default one (counterexample vector in declaration order)",
+                    expected="first T, else first N, else None; same residual filter in both passes", found=sd)
+            continue
+        # not evaluable on abstract vectors: fall back to recognising the shape
         # locate find(..).or_else(|| ..find(..))
         ors = [m for m in method_calls(fi.body, "or_else") if m["recv"]["k"] == "MethodCall" and m["recv"]["method"] == "find"]
         if len(ors) != 1:
-            chk.bad("R3", key, ATTR, fi.line, "accessor is not of the shape find(dedicated).or_else(|| find(default))", found=render(fi.body)[:160])
+            # recognised-bad shape: ONE pass whose predicate accepts both a default and a dedicated instruction (declaration order decides,
+            # a default written first shadows the dedicated one); any other shape is not understood -> INCONCLUSIVE, never a violation
+            finds = [m for m in method_calls(fi.body, "find") if m["args"] and m["args"][0]["k"] == "Closure"]
+            verdict = None
+            if len(finds) == 1 and not list(method_calls(fi.body, "or")) and not [n for n in walk(fi.body) if n["k"] in ("For", "While", "Loop", "Match")]:
+                envn = {p: ("named", "?") for p in fi.params}
+                if "kind" in envn:
+                    envn["kind"] = ("named", "Kind")
+                if "fallible" in envn:
+                    envn["fallible"] = ("bool",)
+                try:
+                    t = classify(pred_table(repo, finds[0]["args"][0], envn))
+                    acc_default = any(val and ct is False for ct, eq, resid, val in t)
+                    acc_dedicated = any(val and ct is True and eq is True for ct, eq, resid, val in t)
+                    if acc_default and acc_dedicated:
+                        verdict = False
+                except Exception:
+                    verdict = None
+            if verdict is False:
+                chk.bad("R3", key, ATTR, fi.line, "single-pass lookup accepts default and dedicated instructions alike: the first one written wins, a dedicated instruction no longer takes precedence",
+                        expected="find(dedicated).or_else(|| find(default))", found=render(fi.body)[:160])
+            else:
+                chk.inconc("R3", f"{key}: accessor is not of a recognised shape (find(dedicated).or_else(|| find(default))): " + render(fi.body)[:120])
             continue
         o = ors[0]
         f1 = o["recv"]
@@ -222,9 +361,16 @@ def r3(chk):
     for impl, name in PREDICATES:
         fi = repo.fn(ATTR, name, impl=impl)
         key = f"{impl}::{name}"
+        sv, sd = lookup_semantics(repo, fi, impl)
+        if sv is True:
+            chk.ok("R3", key, ATTR, fi.line, detail={"decided_by": "small-scope semantics", **sd})
+            continue
+        if sv is False:
+            chk.bad("R3", key, ATTR, fi.line, "predicate does not hold exactly when a default instruction or one dedicated to the queried type passes the residual filter", found=sd)
+            continue
         anys = list(method_calls(fi.body, "any"))
         if len(anys) != 1 or anys[0]["args"][0]["k"] != "Closure":
-            chk.bad("R3", key, ATTR, fi.line, "expected a single .any(predicate)")
+            chk.inconc("R3", f"{key}: predicate is neither evaluable on abstract vectors ({sd}) nor a single .any(closure)")
             continue
         t = classify(pred_table(repo, anys[0]["args"][0], {p: ("named", "?") for p in fi.params}))
         bad = []
